@@ -1,3 +1,609 @@
 #!/usr/bin/env python3
-"""T0 (placeholder, replaced below in this commit series)."""
-print("t0: nothing to translate yet")
+"""T0 — regenerates Lean definitions of spade's leaf decision functions from /repo's CURRENT source.
+
+For every function in TARGETS the Rust body is extracted from the source text, parsed with a small
+expression/if-chain parser and emitted as a Lean definition over the `FL` interface
+(`Spade/FloatLike.lean`).  The C06/C08/C14/C20 theorems are stated about the generated
+definitions, so a change to one of these functions changes the proof obligation itself.
+
+If a function's shape is not recognised the translator prints `FALLBACK <name>: <reason>`, keeps
+the last committed hand-checked definition for that function (from Spade/Generated/fallback/) and
+exits with status 0; the property check then records `translator_fallback` and relies on the
+correspondence run for that function.
+"""
+import os, re, sys, struct
+
+REPO = os.environ.get("VERIF_REPO", "/repo")
+ROOT = os.path.dirname(os.path.dirname(os.path.abspath(__file__)))
+OUT = os.path.join(ROOT, "lean/Spade/Generated")
+
+
+# ---------------------------------------------------------------- Rust source extraction
+def read(rel):
+    return open(os.path.join(REPO, rel)).read()
+
+
+def strip_comments(src):
+    src = re.sub(r"/\*.*?\*/", "", src, flags=re.S)
+    src = re.sub(r"//[^\n]*", "", src)
+    return src
+
+
+def find_fn(src, name, after=None):
+    """returns (params_text, body_text) of `fn name` (first occurrence after marker `after`)."""
+    start = 0
+    if after:
+        start = src.index(after)
+    m = re.search(r"\bfn\s+" + re.escape(name) + r"\s*(<[^>]*>)?\s*\(", src[start:])
+    if not m:
+        raise KeyError(name)
+    i = start + m.end()
+    depth = 1
+    j = i
+    while depth:
+        c = src[j]
+        depth += c == "("
+        depth -= c == ")"
+        j += 1
+    params = src[i:j - 1]
+    k = src.index("{", j)
+    depth = 1
+    l = k + 1
+    while depth:
+        c = src[l]
+        depth += c == "{"
+        depth -= c == "}"
+        l += 1
+    return params, src[k + 1:l - 1]
+
+
+def find_const(src, name):
+    m = re.search(r"\bconst\s+" + name + r"\s*:\s*f64\s*=\s*([^;]+);", src)
+    if not m:
+        raise KeyError(name)
+    return m.group(1).strip()
+
+
+# ---------------------------------------------------------------- expression parser
+TOK = re.compile(r"\s*(?:(\d+\.\d*(?:e[+-]?\d+)?(?:f32|f64)?|\d+(?:f32|f64|usize|u32)?)|([A-Za-z_][A-Za-z0-9_]*)|(::|&&|\|\||<=|>=|==|!=|[-+*/!<>().,&\[\]]))")
+
+
+def tokenize(s):
+    out, i = [], 0
+    s = s.strip()
+    while i < len(s):
+        m = TOK.match(s, i)
+        if not m:
+            raise ValueError("cannot tokenize at: " + s[i:i + 30])
+        if m.group(1):
+            out.append(("num", m.group(1)))
+        elif m.group(2):
+            out.append(("id", m.group(2)))
+        else:
+            out.append(("op", m.group(3)))
+        i = m.end()
+    return out
+
+
+class P:
+    def __init__(self, toks):
+        self.t, self.i = toks, 0
+
+    def peek(self):
+        return self.t[self.i] if self.i < len(self.t) else ("eof", "")
+
+    def eat(self, v=None):
+        k = self.peek()
+        if v is not None and k[1] != v:
+            raise ValueError(f"expected {v} got {k}")
+        self.i += 1
+        return k
+
+    def expr(self):
+        return self.or_()
+
+    def or_(self):
+        a = self.and_()
+        while self.peek() == ("op", "||"):
+            self.eat()
+            a = ("or", a, self.and_())
+        return a
+
+    def and_(self):
+        a = self.cmp()
+        while self.peek() == ("op", "&&"):
+            self.eat()
+            a = ("and", a, self.cmp())
+        return a
+
+    def cmp(self):
+        a = self.add()
+        if self.peek()[0] == "op" and self.peek()[1] in ("<", ">", "<=", ">=", "==", "!="):
+            op = self.eat()[1]
+            a = ("cmp", op, a, self.add())
+        return a
+
+    def add(self):
+        a = self.mul()
+        while self.peek()[0] == "op" and self.peek()[1] in ("+", "-"):
+            op = self.eat()[1]
+            a = ("bin", op, a, self.mul())
+        return a
+
+    def mul(self):
+        a = self.unary()
+        while self.peek()[0] == "op" and self.peek()[1] in ("*", "/"):
+            op = self.eat()[1]
+            a = ("bin", op, a, self.unary())
+        return a
+
+    def unary(self):
+        if self.peek() == ("op", "!"):
+            self.eat()
+            return ("not", self.unary())
+        if self.peek() == ("op", "-"):
+            self.eat()
+            return ("neg", self.unary())
+        if self.peek() == ("op", "&"):
+            self.eat()
+            return self.unary()
+        return self.postfix()
+
+    def args(self):
+        self.eat("(")
+        a = []
+        while self.peek() != ("op", ")"):
+            a.append(self.expr())
+            if self.peek() == ("op", ","):
+                self.eat()
+        self.eat(")")
+        return a
+
+    def postfix(self):
+        a = self.primary()
+        while self.peek() == ("op", "."):
+            self.eat()
+            name = self.eat()[1]
+            if self.peek() == ("op", "("):
+                a = ("method", name, a, self.args())
+            else:
+                a = ("field", name, a)
+        return a
+
+    def primary(self):
+        k = self.peek()
+        if k[0] == "num":
+            self.eat()
+            return ("num", k[1])
+        if k == ("op", "("):
+            self.eat()
+            if self.peek() == ("op", ")"):
+                self.eat()
+                return ("unit",)
+            e = self.expr()
+            self.eat(")")
+            return e
+        if k[0] == "id":
+            self.eat()
+            path = [k[1]]
+            while self.peek() == ("op", "::"):
+                self.eat()
+                path.append(self.eat()[1])
+            if self.peek() == ("op", "("):
+                return ("call", "::".join(path), self.args())
+            return ("path", "::".join(path))
+        raise ValueError(f"unexpected token {k}")
+
+
+def parse_expr(s):
+    p = P(tokenize(s))
+    e = p.expr()
+    if p.peek()[0] != "eof":
+        raise ValueError("trailing tokens: " + str(p.t[p.i:]))
+    return e
+
+
+def parse_if_chain(body):
+    """body := 'if' C '{' E '}' ('else' 'if' C '{' E '}')* 'else' '{' E '}'  |  E"""
+    body = body.strip()
+    branches = []
+    while body.startswith("if "):
+        i = body.index("{")
+        cond = body[2:i]
+        depth, j = 1, i + 1
+        while depth:
+            depth += body[j] == "{"
+            depth -= body[j] == "}"
+            j += 1
+        branches.append((parse_expr(cond), body[i + 1:j - 1].strip()))
+        rest = body[j:].strip()
+        if not rest.startswith("else"):
+            raise ValueError("if without else")
+        body = rest[4:].strip()
+        if body.startswith("{"):
+            depth, j = 1, 1
+            while depth:
+                depth += body[j] == "{"
+                depth -= body[j] == "}"
+                j += 1
+            if body[j:].strip():
+                raise ValueError("trailing text after else block")
+            return branches, body[1:j - 1].strip()
+    return branches, body
+
+
+# ---------------------------------------------------------------- Lean emission
+CMP = {"<": "FL.lt", ">": "FL.gt", "<=": "FL.le", ">=": "FL.ge", "==": "FL.eq", "!=": "FL.ne"}
+
+
+class Emit:
+    """env maps Rust names/paths to Lean terms; methods maps method names to Lean function names"""
+
+    def __init__(self, env, methods=None, calls=None, numty="α"):
+        self.env, self.methods, self.calls, self.numty = env, methods or {}, calls or {}, numty
+
+    def e(self, x):
+        k = x[0]
+        if k == "num":
+            v = x[1]
+            v = re.sub(r"(f32|f64)$", "", v)
+            f = float(v)
+            if f == 0.0:
+                return "(FL.zero)"
+            raise ValueError("non-zero numeric literal " + x[1])
+        if k == "path":
+            if x[1] in self.env:
+                return self.env[x[1]]
+            raise ValueError("unknown name " + x[1])
+        if k == "field":
+            key = self.flat(x)
+            if key in self.env:
+                return self.env[key]
+            raise ValueError("unknown field " + key)
+        if k == "call":
+            if x[1] in self.calls:
+                return "(" + self.calls[x[1]] + "".join(" " + self.e(a) for a in x[2]) + ")"
+            if x[1] in ("S::zero", "zero") and not x[2]:
+                return "(FL.zero)"
+            raise ValueError("unknown call " + x[1])
+        if k == "method":
+            name, recv, args = x[1], x[2], x[3]
+            if name in ("into", "to_f64") and not args:
+                return self.e(recv)
+            if name == "abs" and not args:
+                return f"(FL.abs {self.e(recv)})"
+            if name == "is_nan" and not args:
+                return f"(FL.isNan {self.e(recv)})"
+            if name in self.methods:
+                return "(" + self.methods[name] + " " + self.e(recv) + "".join(" " + self.e(a) for a in args) + ")"
+            raise ValueError("unknown method " + name)
+        if k == "neg":
+            return f"(FL.neg {self.e(x[1])})"
+        if k == "not":
+            return f"(!{self.e(x[1])})"
+        if k == "and":
+            return f"({self.e(x[1])} && {self.e(x[2])})"
+        if k == "or":
+            return f"({self.e(x[1])} || {self.e(x[2])})"
+        if k == "cmp":
+            isbool = lambda y: y[0] == "method" and y[1] in self.methods
+            if isbool(x[2]) and isbool(x[3]) and x[1] in ("==", "!="):
+                return f"({self.e(x[2])} {x[1]} {self.e(x[3])})"
+            return f"({CMP[x[1]]} {self.e(x[2])} {self.e(x[3])})"
+        if k == "bin":
+            raise ValueError("arithmetic is not part of the decision fragment: " + x[1])
+        raise ValueError("cannot emit " + str(x))
+
+    def flat(self, x):
+        if x[0] == "field":
+            return self.flat(x[2]) + "." + x[1]
+        if x[0] == "path":
+            return x[1]
+        raise ValueError("not a field path")
+
+
+def f64_bits(lit):
+    v = float(lit)
+    return struct.unpack(">Q", struct.pack(">d", v))[0]
+
+
+def main():
+    os.makedirs(OUT, exist_ok=True)
+    notes = []
+    math = strip_comments(read("src/delaunay_core/math.rs"))
+    lsi = strip_comments(read("src/delaunay_core/line_side_info.rs"))
+    tri = strip_comments(read("src/triangulation.rs"))
+    refinement = strip_comments(read("src/delaunay_core/refinement.rs"))
+    hull = strip_comments(read("src/delaunay_core/handles/iterators/hull_iterator.rs"))
+    out = []
+    w = out.append
+    w("/- GENERATED by translator/t0.py from /repo's current source — do not edit. -/")
+    w("import Spade.FloatLike")
+    w("namespace Spade.Generated")
+    w("open Spade")
+    w("")
+
+    def guarded(name, fn):
+        try:
+            fn()
+            notes.append(f"ok {name}")
+        except Exception as ex:  # shape not recognised
+            notes.append(f"FALLBACK {name}: {ex}")
+            fb = os.path.join(OUT, "fallback", name + ".lean.txt")
+            if os.path.exists(fb):
+                w(open(fb).read())
+            else:
+                raise
+
+    # --- constants
+    def consts():
+        mn = f64_bits(find_const(math, "MIN_ALLOWED_VALUE"))
+        mx = f64_bits(find_const(math, "MAX_ALLOWED_VALUE"))
+        w(f"/-- bit pattern of the literal in math.rs -/\ndef MIN_ALLOWED_VALUE_bits : Nat := 0x{mn:016x}")
+        w(f"def MAX_ALLOWED_VALUE_bits : Nat := 0x{mx:016x}")
+        w("def MIN_ALLOWED_VALUE : Coord := (F64.ofBits MIN_ALLOWED_VALUE_bits).decode")
+        w("def MAX_ALLOWED_VALUE : Coord := (F64.ofBits MAX_ALLOWED_VALUE_bits).decode")
+        w("")
+    guarded("consts", consts)
+
+    # --- validate_coordinate
+    def validate():
+        params, body = find_fn(math, "validate_coordinate")
+        m = re.match(r"\s*let\s+(\w+)\s*:\s*f64\s*=\s*(\w+)\.into\(\)\s*;(.*)", body, flags=re.S)
+        if not m:
+            raise ValueError("expected `let as_f64: f64 = value.into();`")
+        var, src_var, rest = m.group(1), m.group(2), m.group(3)
+        if src_var not in params:
+            raise ValueError("conversion of something that is not the parameter")
+        branches, last = parse_if_chain(rest)
+        em = Emit({var: "v", "MIN_ALLOWED_VALUE": "MIN_ALLOWED_VALUE", "MAX_ALLOWED_VALUE": "MAX_ALLOWED_VALUE"})
+
+        def res(t):
+            t = t.strip()
+            mm = re.fullmatch(r"Err\(InsertionError::(\w+)\)", t)
+            if mm:
+                return {"NAN": ".error .nan", "TooSmall": ".error .tooSmall", "TooLarge": ".error .tooLarge"}[mm.group(1)]
+            if re.fullmatch(r"Ok\(\(\)\)", t):
+                return ".ok ()"
+            raise ValueError("unexpected result " + t)
+        w("/-- `math::validate_coordinate`, on the widened (exact) value -/")
+        w("def validate_coordinate (v : Coord) : Except InsErr Unit :=")
+        for c, r in branches:
+            w(f"  if {em.e(c)} then {res(r)} else")
+        w(f"  {res(last)}")
+        w("")
+    guarded("validate_coordinate", validate)
+
+    # --- validate_vertex: x before y
+    def validate_vertex():
+        params, body = find_fn(math, "validate_vertex")
+        calls = re.findall(r"validate_coordinate\(\s*position\.(\w)\s*\)\s*\?", body)
+        if sorted(calls) != ["x", "y"] or not re.search(r"Ok\(\(\)\)\s*$", body.strip()):
+            raise ValueError("unexpected shape")
+        a, b = calls
+        w("/-- `math::validate_vertex`: the order in which the coordinates are validated -/")
+        w("def validate_vertex (x y : Coord) : Except InsErr Unit :=")
+        w(f"  match validate_coordinate {a} with")
+        w("  | .error e => .error e")
+        w(f"  | .ok _ => validate_coordinate {b}")
+        w("")
+    guarded("validate_vertex", validate_vertex)
+
+    # --- mitigate_underflow_for_coordinate
+    def mitigate():
+        params, body = find_fn(math, "mitigate_underflow_for_coordinate")
+        pname = params.split(":")[0].strip()
+        branches, last = parse_if_chain(body)
+        em = Emit({pname: "c", "MIN_ALLOWED_VALUE": "MIN_ALLOWED_VALUE"})
+
+        def val(t):
+            t = t.strip()
+            if t == "S::zero()":
+                return "(FL.zero)"
+            if t == pname:
+                return "c"
+            raise ValueError("unexpected value " + t)
+        w("/-- `math::mitigate_underflow_for_coordinate` -/")
+        w("def mitigate_underflow_for_coordinate (c : Coord) : Coord :=")
+        for cnd, r in branches:
+            w(f"  if {em.e(cnd)} then {val(r)} else")
+        w(f"  {val(last)}")
+        w("")
+    guarded("mitigate_underflow_for_coordinate", mitigate)
+
+    # --- LineSideInfo predicates (generic over the sign carrier)
+    def linesideinfo():
+        impl = lsi[lsi.index("impl LineSideInfo"):]
+        names = ["is_on_left_side", "is_on_right_side", "is_on_left_side_or_on_line",
+                 "is_on_right_side_or_on_line", "is_on_line"]
+        em = Emit({"self.signed_side": "s"})
+        for n in names:
+            _, body = find_fn(impl, n)
+            w(f"/-- `LineSideInfo::{n}` -/")
+            w(f"def {n} {{α : Type}} [FL α] (s : α) : Bool := {em.e(parse_expr(body))}")
+        _, body = find_fn(impl, "reversed")
+        m = re.fullmatch(r"\s*LineSideInfo\s*\{\s*signed_side\s*:\s*(.*?),?\s*\}\s*", body, flags=re.S)
+        if not m:
+            raise ValueError("reversed: unexpected shape")
+        w("/-- `LineSideInfo::reversed` -/")
+        w(f"def reversed {{α : Type}} [FL α] (s : α) : α := {em.e(parse_expr(m.group(1)))}")
+        # PartialEq
+        _, body = find_fn(lsi, "eq", after="impl PartialEq for LineSideInfo")
+        branches, last = parse_if_chain(body)
+        em2 = Emit({"self": "a", "other": "b"}, methods={n: n for n in names})
+        w("/-- `impl PartialEq for LineSideInfo` -/")
+        w("def lineSideEq {α : Type} [FL α] (a b : α) : Bool :=")
+        for c, r in branches:
+            w(f"  if {em2.e(c)} then {em2.e(parse_expr(r))} else")
+        w(f"  {em2.e(parse_expr(last))}")
+        w("")
+    guarded("LineSideInfo", linesideinfo)
+
+    # --- side_query / is_ordered_ccw / contained_in_circumference: argument order and comparison
+    def side_query():
+        params, body = find_fn(math, "side_query")
+        pn = [p.split(":")[0].strip() for p in params.split(",") if p.strip()]
+        m = re.search(r"robust::orient2d\(\s*(\w+)\s*,\s*(\w+)\s*,\s*(\w+)\s*\)", body)
+        if not m or not re.search(r"LineSideInfo::from_determinant\(\s*result\s*\)", body):
+            raise ValueError("unexpected shape")
+        for a in m.groups():
+            if a not in pn or not re.search(r"let\s+" + a + r"\s*=\s*to_robust_coord\(\s*" + a + r"\s*\)", body):
+                raise ValueError("argument is not a converted parameter")
+        w("/-- `math::side_query`: the exact determinant whose sign the returned LineSideInfo carries -/")
+        w(f"def side_query ({' '.join(pn)} : Pt) : Int := robustOrient2d {' '.join(m.groups())}")
+        w("")
+    guarded("side_query", side_query)
+
+    def ordered_ccw():
+        params, body = find_fn(math, "is_ordered_ccw")
+        pn = [p.split(":")[0].strip() for p in params.split(",") if p.strip()]
+        m = re.search(r"let\s+query\s*=\s*side_query\(\s*(\w+)\s*,\s*(\w+)\s*,\s*(\w+)\s*\)\s*;\s*query\.(\w+)\(\)\s*$", body.strip())
+        if not m:
+            raise ValueError("unexpected shape")
+        w("/-- `math::is_ordered_ccw` -/")
+        w(f"def is_ordered_ccw ({' '.join(pn)} : Pt) : Bool := {m.group(4)} (side_query {m.group(1)} {m.group(2)} {m.group(3)})")
+        w("")
+    guarded("is_ordered_ccw", ordered_ccw)
+
+    def contained():
+        params, body = find_fn(math, "contained_in_circumference")
+        pn = [p.split(":")[0].strip() for p in params.split(",") if p.strip()]
+        m = re.search(r"robust::incircle\(\s*(\w+)\s*,\s*(\w+)\s*,\s*(\w+)\s*,\s*(\w+)\s*\)\s*(<=|>=|<|>)\s*0\.0\s*$", body.strip())
+        if not m:
+            raise ValueError("unexpected shape")
+        for a in m.groups()[:4]:
+            if a not in pn:
+                raise ValueError("argument is not a parameter")
+        op = CMP[m.group(5)]
+        w("/-- `math::contained_in_circumference`: argument order and comparison as in the source -/")
+        w(f"def contained_in_circumference ({' '.join(pn)} : Pt) : Bool :=")
+        w(f"  {op} (robustIncircle {' '.join(m.groups()[:4])}) (0 : Int)")
+        w("")
+    guarded("contained_in_circumference", contained)
+
+    def intersects():
+        params, body = find_fn(math, "intersects_edge_non_collinear")
+        pn = [p.split(":")[0].strip() for p in params.split(",") if p.strip()]
+        lets = re.findall(r"let\s+(\w+)\s*=\s*side_query\(\s*(\w+)\s*,\s*(\w+)\s*,\s*(\w+)\s*\)\s*;", body)
+        if len(lets) != 4:
+            raise ValueError("expected four side queries")
+        tail = body.strip().rsplit(";", 1)[1].strip()
+        env = {n: f"(side_query {a} {b} {c})" for n, a, b, c in lets}
+        e = parse_expr(tail)
+
+        def em(x):
+            if x[0] == "and":
+                return f"({em(x[1])} && {em(x[2])})"
+            if x[0] == "or":
+                return f"({em(x[1])} || {em(x[2])})"
+            if x[0] == "cmp" and x[1] in ("!=", "=="):
+                t = f"(lineSideEq {env[x[2][1]]} {env[x[3][1]]})"
+                return t if x[1] == "==" else f"(!{t})"
+            raise ValueError("unexpected expression")
+        w("/-- `math::intersects_edge_non_collinear` (result expression; the collinear case asserts) -/")
+        w(f"def intersects_edge_non_collinear ({' '.join(pn)} : Pt) : Bool := {em(e)}")
+        w("")
+    guarded("intersects_edge_non_collinear", intersects)
+
+    # --- PointProjection
+    def projection():
+        impl = math[math.index("impl<S: SpadeNum> PointProjection<S>"):]
+        em = Emit({"self.factor": "factor", "self.length_2": "length_2"},
+                  methods={"is_before_edge": "is_before_edge_m", "is_behind_edge": "is_behind_edge_m"})
+        _, b1 = find_fn(impl, "is_before_edge")
+        _, b2 = find_fn(impl, "is_behind_edge")
+        _, b3 = find_fn(impl, "is_on_edge")
+        w("/-- `PointProjection::is_before_edge` / `is_behind_edge` / `is_on_edge` over exact values -/")
+        w(f"def is_before_edge (factor _length_2 : Int) : Bool := {em.e(parse_expr(b1))}")
+        w(f"def is_behind_edge (factor length_2 : Int) : Bool := {em.e(parse_expr(b2))}")
+        e3 = parse_expr(b3)
+
+        def em3(x):
+            if x[0] == "and":
+                return f"({em3(x[1])} && {em3(x[2])})"
+            if x[0] == "not":
+                return f"(!{em3(x[1])})"
+            if x[0] == "method" and x[1] in ("is_before_edge", "is_behind_edge") and x[2] == ("path", "self"):
+                return f"({x[1]} factor length_2)"
+            raise ValueError("unexpected")
+        w(f"def is_on_edge (factor length_2 : Int) : Bool := {em3(e3)}")
+        # project_point
+        params, body = find_fn(math, "project_point")
+        if not re.search(r"let\s+dir\s*=\s*p2\.sub\(p1\)\s*;\s*PointProjection::new\(\s*query_point\.sub\(p1\)\.dot\(dir\)\s*,\s*dir\.length2\(\)\s*\)", body):
+            raise ValueError("project_point: unexpected shape")
+        w("/-- `math::project_point`: (factor, length_2) in exact arithmetic -/")
+        w("def project_point (p1 p2 query_point : Pt) : Int × Int := (dotFrom p1 p2 query_point, dotFrom p1 p2 p2)")
+        w("")
+    guarded("PointProjection", projection)
+
+    # --- triangulation.rs size functions
+    def sizes():
+        def body_of(n):
+            return find_fn(tri, n)[1].strip()
+        b = body_of("convex_hull_size")
+        m = re.fullmatch(r"if\s+self\.all_vertices_on_line\(\)\s*\{\s*self\.num_directed_edges\(\)\s*\}\s*else\s*\{\s*let\s+num_inner_edges\s*=\s*self\.num_inner_faces\(\)\s*\*\s*3\s*;\s*self\.num_directed_edges\(\)\s*-\s*num_inner_edges\s*\}", b)
+        if not m:
+            raise ValueError("convex_hull_size: unexpected shape: " + b[:120])
+        if body_of("all_vertices_on_line") != "self.num_all_faces() == 1" or body_of("num_all_faces") != "self.s().num_faces()":
+            raise ValueError("all_vertices_on_line: unexpected shape")
+        if body_of("num_inner_faces") != "self.s().num_faces() - 1":
+            raise ValueError("num_inner_faces: unexpected shape")
+        w("/-- `Triangulation::{all_vertices_on_line,num_inner_faces,convex_hull_size}` on the element counts -/")
+        w("def all_vertices_on_line (numFaces : Nat) : Bool := numFaces == 1")
+        w("def num_inner_faces (numFaces : Nat) : Nat := numFaces - 1")
+        w("def convex_hull_size (numFaces numDirectedEdges : Nat) : Nat :=")
+        w("  if all_vertices_on_line numFaces then numDirectedEdges")
+        w("  else numDirectedEdges - num_inner_faces numFaces * 3")
+        w("")
+    guarded("sizes", sizes)
+
+    # --- hull iterator stepping functions
+    def hulliter():
+        impl = hull[hull.index("impl NextBackFn for HullNextBackFn"):]
+        _, n = find_fn(impl, "next")
+        _, nb = find_fn(impl, "next_back")
+        mp = {"edge_handle.next()": "next", "edge_handle.prev()": "prev"}
+        if n.strip() not in mp or nb.strip() not in mp:
+            raise ValueError("unexpected stepping function")
+        w("/-- `HullNextBackFn::{next,next_back}`: which link the hull iterator follows -/")
+        w(f"inductive Link where | next | prev deriving DecidableEq, Repr")
+        w(f"def hullStep : Link := .{mp[n.strip()]}")
+        w(f"def hullStepBack : Link := .{mp[nb.strip()]}")
+        w("")
+    guarded("hull_iterator", hulliter)
+
+    # --- is_encroaching_edge
+    def encroach():
+        params, body = find_fn(refinement, "is_encroaching_edge")
+        want = re.sub(r"\s+", "", """let edge_center = edge_from.add(edge_to).mul(0.5f32.into());
+            let radius_2 = edge_from.distance_2(edge_to) * 0.25.into();
+            query_point.distance_2(edge_center) < radius_2""")
+        got = re.sub(r"\s+", "", body)
+        if got != want:
+            raise ValueError("unexpected shape")
+        w("/-- `refinement::is_encroaching_edge` in exact arithmetic, scaled by 4:")
+        w("    |q - (a+b)/2|² < |a-b|²/4  ⇔  |2q - (a+b)|² < |a-b|² -/")
+        w("def is_encroaching_edge (edge_from edge_to query_point : Pt) : Bool :=")
+        w("  FL.lt (dist2 ⟨2 * query_point.x, 2 * query_point.y⟩ ⟨edge_from.x + edge_to.x, edge_from.y + edge_to.y⟩) (dist2 edge_from edge_to)")
+        w("")
+    guarded("is_encroaching_edge", encroach)
+
+    w("end Spade.Generated")
+    text = "\n".join(out) + "\n"
+    path = os.path.join(OUT, "Leaf.lean")
+    old = open(path).read() if os.path.exists(path) else None
+    if old != text:
+        open(path, "w").write(text)
+        print("t0: Spade/Generated/Leaf.lean rewritten")
+    else:
+        print("t0: Spade/Generated/Leaf.lean unchanged")
+    for n in notes:
+        print("t0:", n)
+
+
+if __name__ == "__main__":
+    try:
+        main()
+    except Exception as ex:
+        print("t0: ERROR", ex)
+        sys.exit(1)
